@@ -41,6 +41,15 @@ CHECKS = {
  "C10": ("model_checking", "choice-tree exploration (E1) of every builder call sequence <= 4 (5) calls over small argument domains; oracle = builder spec R4 written from RFC 8011",
          "Every sequence of builder calls for each of the 10 operations (plus URI sweep, payload sweep, direct constructors, raw constructors with every version) yields exactly the request the spec R4 derives from the arguments, in memory and after to_bytes() -> R1.decode.",
          "R4 was written from the property statement and RFC 8011 4.2-4.3, not from operation.rs.", "DESIGN.md §5 C10"),
+ "C11": ("fault_enumeration", "exhaustive enumeration of peer scripts (framings x write fragmentations x every status x every cut offset x stalls x N! answer orders) and client configurations against a hand-written loopback HTTP peer; real clients, real sockets",
+         "Both clients: request side (exact POST target, Host, content-type, custom headers, Basic credentials, body = request + payload) over the product of requests x payloads x configurations x paths x schemes; response side over framings x write plans incl. every two-piece split; every 4xx/5xx; cut after every offset of header+attributes under each framing; stalls with/without timeout; N concurrent senders with every answer order.",
+         "Thread interleavings inside hyper/tokio/ureq are not controlled (send(&self) builds a fresh agent per call; the answer order - the only cross-request channel - is enumerated). Verdicts depend only on outcome classes stable under TCP coalescing. The system trust store is replaced by an empty one.", "DESIGN.md §5 C11"),
+ "C12": ("exploration", "complete finite matrix of 240 (480) TLS configurations, one real handshake each against a loopback TLS peer with run-time minted certificates; two builds for the two backends",
+         "{blocking, async} x {native-tls, rustls} x ignore flag x extra root x server certificate kind, complete; accepted iff ignore=true or (correct root and valid certificate); on rejection no application byte reaches the peer.",
+         "localhost resolves to 127.0.0.1; system trust store replaced by an empty one (SSL_CERT_FILE/SSL_CERT_DIR).", "DESIGN.md §5 C12"),
+ "C18": ("exploration", "exhaustive enumeration of command lines x scripted printers on the real ipputil binary built from /repo, observed at a loopback peer",
+         "Option lists of length 0..2 (3) over 10 option texts x job/user names; contents incl. BufReader boundaries and MiBs, file and stdin; all printer answer scripts (ready / stopped / blocked / IPP error / HTTP error / cut) with and without the state check. Oracle: request sequence, typed options, document octets, exit status.",
+         "The binary is rebuilt from /repo's working tree on every run; runs are real processes against real sockets.", "DESIGN.md §5 C18"),
  "C13": ("exploration", "complete product of 47 040 target URIs through the helper and every constructor; oracle = string-level RFC 3986 splitter R3",
          "The whole D-uri product is canonicalised by the helper (plus idempotence) and by the raw constructor, a sub-product by all builders; the printer-uri never contains user-info or query and keeps host, port and path.",
          "URIs that http::Uri rejects are outside the domain.", "DESIGN.md §5 C13"),
@@ -87,7 +96,7 @@ def main():
             na.append({"property_id": pid, "reason": NOT_YET.get(pid, "check not built yet in this round (planned in DESIGN.md §5); not a statement that the technique cannot apply")})
     m = {
         "version": 1,
-        "setup_cmd": "cd /verif/engine && CARGO_NET_OFFLINE=true cargo build --release --offline -p hcore",
+        "setup_cmd": "cd /verif/engine && export CARGO_NET_OFFLINE=true && cargo build --release --offline -p hcore && cargo build --release --offline -p hnet-native && cargo build --release --offline -p hnet-rustls && cargo build --release --offline --manifest-path /repo/Cargo.toml -p ipp-util --target-dir /verif/target/util",
         "hooks": {
             "guard": "--cfg ipp_verif",
             "enable": "RUSTFLAGS=\"--cfg ipp_verif\" via /verif/engine/.cargo/config.toml ([build] rustflags); every ./check run rebuilds the ipp crate from /repo's working tree with it",
